@@ -247,10 +247,45 @@ func (c *cluster) outage(x *cnode, subs []string) {
 	}
 	for _, s := range subs {
 		before := c.allocated()
-		c.request(s, shuffledNodes(c.nodes, c.rng), 0, "after-owner-outage", servedBy[s])
+		if servedBy[s] == "" {
+			c.request(s, shuffledNodes(c.nodes, c.rng), 0, "after-owner-outage", "")
+		} else {
+			// served while x was away: every node now names the same node, and no other pool allocates (a pool that already
+			// holds the subscriber may allocate once more under the key a forwarded invalid-UTF-8 id turns into: observation
+			// only, as in request)
+			var resps []e2eResp
+			for _, e := range shuffledNodes(c.nodes, c.rng) {
+				ctx, cancel := context.WithTimeout(context.Background(), 20*time.Second)
+				r, err := e.pool.Allocate(ctx, s, nil)
+				cancel()
+				rr := e2eResp{Entry: e.id}
+				if err != nil {
+					rr.Err = err.Error()
+				} else {
+					rr.NodeID, rr.IP = r.NodeID, r.IP
+				}
+				resps = append(resps, rr)
+				run.Count("e2e_requests", 1)
+				run.Count("e2e_requests_after-owner-outage", 1)
+				w := map[string]any{"cluster": c.key(), "phase": "after-owner-outage", "was_unreachable": q(x.id), "subscriber": q(s), "served_during_outage_by": q(servedBy[s]), "responses": resps}
+				if err != nil {
+					run.Violation(comp, "served-by-exactly-one-pool", "request-failed"+suffix, fmt.Sprintf("after-owner-outage: request for %s entering at %s failed: %s", q(s), q(e.id), rr.Err), w)
+				} else if r.NodeID != servedBy[s] {
+					run.Violation(comp, "same-node-id-from-every-entry", "served-subscriber-answered-by-other-node-after-owner-outage"+suffix, fmt.Sprintf("%s was served by %s while %s did not answer; now the request entering at %s is answered by %s", q(s), q(servedBy[s]), q(x.id), q(e.id), q(r.NodeID)), w)
+				}
+			}
+			run.Eval()
+		}
 		after := c.allocated()
 		for i := range after {
 			if after[i] > before[i] {
+				if heldIn[s][i] {
+					if utf8.ValidString(s) {
+						run.Count("e2e_same_pool_allocated_again_after_outage_valid_utf8_id", 1)
+					} else {
+						run.Count("e2e_same_pool_allocated_again_after_outage_invalid_utf8_id", 1)
+					}
+				}
 				heldIn[s][i] = true
 			}
 		}
